@@ -370,6 +370,8 @@ def main(argv):
     if not a.prop:
         ap.error("property id required")
     prop = a.prop
+    if a.replay:
+        return replay(prop, a.replay, templates, serving)
     mine = [t for t in templates if prop in serving[t]]
     if not mine:
         print("UNDECIDED no unit serves %s" % prop)
@@ -378,6 +380,37 @@ def main(argv):
     import kani_driver
     kres = kani_driver.run_for(prop, tier) if hasattr(kani_driver, "run_for") else None
     return report(prop, tier, seed, results, kres, t0)
+
+
+def replay(prop, path, templates, serving):
+    """re-check the obligation recorded in a replay file against the current /repo tree"""
+    try:
+        doc = json.load(open(path))
+    except Exception as e:
+        print("cannot read replay file %s: %s" % (path, e))
+        return 2
+    unit = doc.get("unit")
+    mine = [t for t in templates if os.path.basename(t).replace(".vx.rs", "") == unit]
+    if not mine:
+        print("replay: unit %s not found" % unit)
+        return 2
+    r = process_unit(mine[0])
+    print("replay of obligation %s (%s)" % (doc.get("obligation"), doc.get("real_location")))
+    if r["status"] != "ok":
+        print("UNDECIDED %s" % r["undecided"])
+        return 2
+    for e in attribute(r, prop, True):
+        if err_id(r, e, prop) == doc.get("obligation"):
+            print("still failing on the current tree:")
+            print(e.get("rendered", ""))
+            if doc.get("counterexample"):
+                print("counterexample: %s" % json.dumps(doc["counterexample"]))
+            else:
+                print("(the verifier gave no failing input: no-failing-input-found)")
+            print("VIOLATION property=%s replay=%s no-failing-input-found" % (prop, path))
+            return 1
+    print("obligation discharged on the current tree")
+    return 0
 
 
 def run_units(templates):
